@@ -987,4 +987,260 @@ theorem primSim_ct_dec (W rest : Bits) (L : Nat) :
       simp only [List.map_cons, hn, if_false]
       exact ⟨_, rfl, by simpa using this⟩
 
+/-! ### projection onto the CHECKED uncompressed encoder of one subset -/
+
+/-- compressed encoder state `s` vs the checked uncompressed encoder state `t` of subset `k`:
+    as `RelProj`, and the ghost register of `t` is ghost row `k` of `s` -/
+def RelProjT (k : Nat) (s t : St) : Prop :=
+  t.regs = s.regs ∧ t.descs = s.descs ∧ t.links = s.links ∧ t.idx = s.idx ∧
+    (∃ row, s.vals[k]? = some row ∧ t.vals = [row]) ∧
+    (∃ g, s.forced[k]? = some g ∧ t.aux = g.2)
+
+/-- the register update of an accepted column is the one of every accepted entry -/
+def ColUpd (col : ColW) (fld : Fld) : Prop :=
+  ∀ v0 vs o, col ((v0 :: vs).all (· == v0)) (v0 :: vs) = .ok o →
+    ∀ v, v ∈ v0 :: vs → ∀ fo, fld v = .ok fo → fo.upd = o.upd
+
+theorem colUpd_of_proj {col : ColW} {fld : Fld} (h : ColProj col fld) : ColUpd col fld := by
+  intro v0 vs o ho v hv fo hfo
+  obtain ⟨fo', hfo', hupd⟩ := h v0 vs o ho v hv
+  rw [hfo] at hfo'
+  cases hfo'
+  exact hupd
+
+theorem colUpd_of_id {col : ColW} {fld : Fld} (h1 : ∀ a vs o, col a vs = .ok o → o.upd = id)
+    (h2 : ∀ v fo, fld v = .ok fo → fo.upd = id) : ColUpd col fld := by
+  intro v0 vs o ho v hv fo hfo
+  rw [h1 _ _ _ ho, h2 _ _ hfo]
+
+theorem encStepCT_encStepX_sim (k : Nat) (dd : DDesc) (col : ColW) (fld fldX : Fld)
+    (hle : ∀ v fo, fld v = .ok fo → fldX v = .ok fo) (hu : ColUpd col fld) (s : St) :
+    SimAt (I := Unit) (fun _ _ => True) (fun _ => RelProjT k) s
+      (encStepCT dd (colT col fld) s) (encStepX dd fldX) := by
+  intro s' hr j _
+  refine ⟨(), trivial, ?_⟩
+  rintro t ⟨h1, h2, h3, h4, ⟨row, hrow, hvals⟩, ⟨g, hg, haux⟩⟩
+  unfold encStepCT at hr
+  cases hv : colVals s with
+  | error e => rw [hv] at hr; cases hr
+  | ok values =>
+    rw [hv] at hr
+    cases values with
+    | nil => cases hr
+    | cons v0 vs =>
+      dsimp only at hr
+      cases ho : colT col fld ((v0 :: vs).all (· == v0)) (v0 :: vs) with
+      | error e => rw [ho] at hr; cases hr
+      | ok o =>
+        rw [ho] at hr
+        cases hr
+        obtain ⟨o', fos, hc, hm, rfl⟩ := colT_ok ho
+        obtain ⟨v, hvk, hnth⟩ := mapM_ok_get _ _ _ hv k row hrow
+        obtain ⟨fo, hfok, hfo⟩ := mapM_ok_get fld _ _ hm k v hvk
+        have hupd := hu v0 vs o' hc v (List.mem_of_getElem? hvk) fo hfo
+        unfold encStepX
+        have hcur : curVals t = row := by unfold curVals; rw [hvals]; rfl
+        rw [hcur, h4, hnth]
+        dsimp only
+        rw [hle v fo hfo]
+        refine ⟨_, rfl, ?_⟩
+        have hck : (fos.map (·.canon))[k]? = some fo.canon := by
+          rw [List.getElem?_map, hfok]; rfl
+        simp only [RelProjT, h1, h2, h3, h4, hupd, hvals, haux, true_and]
+        exact ⟨⟨row, hrow, rfl⟩, ⟨_, ghostPush_get hck hg, rfl⟩⟩
+
+theorem fldNumericX_upd (nb sc rf : Int) (v : Val) (fo : FldOut)
+    (h : fldNumericT nb sc rf v = .ok fo) : fo.upd = id :=
+  fldNumeric_upd nb sc rf v fo (fldNumericX_le nb sc rf v fo (fldNumericT_le nb sc rf v fo h))
+
+theorem fldCodeflagX_upd (n : Nat) (v : Val) (fo : FldOut)
+    (h : fldCodeflagT n v = .ok fo) : fo.upd = id :=
+  fldCodeflag_upd n v fo (fldCodeflagX_le n v fo (fldCodeflagT_le n v fo h))
+
+theorem ct_encFactorCX_row {s : St} {v : Val} (h : encFactorCX s = .ok v) {k : Nat} {row : List Val}
+    (hrow : s.vals[k]? = some row) : s.idx ≠ 0 ∧ nthVal row (s.idx - 1) = .ok v := by
+  have hc := ct_encFactorCX_ok h
+  have hidx : s.idx ≠ 0 := by
+    intro h0
+    unfold encFactorC at hc
+    simp [h0] at hc
+  refine ⟨hidx, ?_⟩
+  unfold encFactorCX at h
+  rw [hc] at h
+  cases hm : List.mapM (m := Except Err) (fun l => nthVal l (s.idx - 1)) s.vals with
+  | error e =>
+    simp only [bind, Except.bind] at h
+    rw [hm] at h; cases h
+  | ok heads =>
+    simp only [bind, Except.bind, pure, Except.pure] at h
+    rw [hm] at h
+    dsimp only at h
+    by_cases hall : (heads.all fun x => x == v) = true
+    · obtain ⟨b, hb, hnth⟩ := mapM_ok_get _ _ _ hm k row hrow
+      have hbv : b = v := by
+        have := List.all_eq_true.mp hall b (List.mem_of_getElem? hb)
+        simpa using this
+      rw [← hbv]; exact hnth
+    · simp only [hall, if_false] at h; cases h
+
+theorem ct_encLastValuesCX_ok {s : St} {n : Nat} {l : List Val} (h : encLastValuesCX n s = .ok l) :
+    encLastValues n s = .ok l ∧
+      (s.vals.all (fun row => zeroMask ((row.take s.idx).drop (s.idx - n)) == zeroMask l)) = true := by
+  unfold encLastValuesCX at h
+  cases hv : encLastValues n s with
+  | error e => rw [hv] at h; cases h
+  | ok l0 =>
+    rw [hv] at h
+    simp only [bind, Except.bind, pure, Except.pure] at h
+    split at h
+    · rename_i hall; cases h; exact ⟨rfl, hall⟩
+    · cases h
+
+theorem primSim_ct_ux (k : Nat) : PrimSim₀ encPrimsCT encPrimsUX (RelProjT k) where
+  agree := fun h => ⟨h.1, h.2.1, h.2.2.1⟩
+  rel_setRegs := fun f ⟨h1, h2, h3, h4, h5, h6⟩ => by
+    simp only [RelProjT, St.setRegs_regs, St.setRegs_descs, St.setRegs_links, St.setRegs_idx,
+      St.setRegs_vals, St.setRegs_forced, St.setRegs_aux, h1, h2, h3, h4, true_and]
+    exact ⟨h5, h6⟩
+  rel_addLink := fun o ⟨h1, h2, h3, h4, h5, h6⟩ => by
+    simp only [RelProjT, addLink_regs, addLink_descs, addLink_links, addLink_idx,
+      addLink_vals, addLink_forced, addLink_aux, h1, h2, h3, h4, true_and]
+    exact ⟨h5, h6⟩
+  ix_setRegs := fun _ => Iff.rfl
+  ix_addLink := fun _ => Iff.rfl
+  numeric := fun dd nb sc rf s =>
+    encStepCT_encStepX_sim k dd _ _ _ (fldNumericT_le nb sc rf)
+      (colUpd_of_id (colNumeric_upd nb sc rf) (fldNumericX_upd nb sc rf)) s
+  string := fun dd n s =>
+    encStepCT_encStepX_sim k dd _ _ _ (fun _ _ h => h) (colUpd_of_proj (colProj_string n)) s
+  codeflag := fun dd n s =>
+    encStepCT_encStepX_sim k dd _ _ _ (fldCodeflagT_le n)
+      (colUpd_of_id (colCodeflag_upd n) (fldCodeflagX_upd n)) s
+  newRefval := fun e n s =>
+    encStepCT_encStepX_sim k _ _ _ _ (fun _ _ h => h) (colUpd_of_proj (colProj_newRefval e.id n)) s
+  constant := fun dd c s =>
+    encStepCT_encStepX_sim k dd _ _ _ (fun _ _ h => h) (colUpd_of_proj (colProj_constant c)) s
+  factor := by
+    intro i s t n ⟨_, _, _, h4, ⟨row, hrow, hvals⟩, ⟨g, hg, haux⟩⟩ h
+    show (encFactorX t >>= factorCount) = .ok n
+    change (encFactorCT s >>= factorCount) = .ok n at h
+    obtain ⟨v, hv, hall, hcount⟩ := ct_encFactorCT_ok h
+    obtain ⟨hidx, hnth⟩ := ct_encFactorCX_row hv hrow
+    have hU : encFactorU t = .ok v := by
+      unfold encFactorU curVals
+      rw [hvals, h4]
+      simp only [hidx, if_false, List.headD_cons, hnth]
+    have hgh := List.all_eq_true.mp hall g (List.mem_of_getElem? hg)
+    unfold encFactorX
+    rw [hU, haux]
+    cases hg2 : g.2 with
+    | nil => rw [hg2] at hgh; simp at hgh
+    | cons c cs =>
+      rw [hg2] at hgh
+      simp only [List.head?_cons, beq_iff_eq, Option.some.injEq] at hgh
+      simp only [bind, Except.bind, pure, Except.pure, hgh, if_true]
+      exact hcount
+  lastValues := by
+    intro i s t n l ⟨_, _, _, h4, ⟨row, hrow, hvals⟩, ⟨g, hg, haux⟩⟩ h
+    change encLastValuesCT n s = .ok l at h
+    show ∃ l', encLastValuesX n t = .ok l' ∧ zeroMask l' = zeroMask l
+    obtain ⟨hcx, hn, _, hall⟩ := ct_encLastValuesCT_ok h
+    obtain ⟨_, hrows⟩ := ct_encLastValuesCX_ok hcx
+    have hr := List.all_eq_true.mp hrows row (List.mem_of_getElem? hrow)
+    have hgh := List.all_eq_true.mp hall g (List.mem_of_getElem? hg)
+    simp only [beq_iff_eq] at hr hgh
+    unfold encLastValuesX encLastValues curVals
+    rw [hvals, h4, haux]
+    simp only [bind, Except.bind, pure, Except.pure, List.headD_cons, hn, if_false, hgh, hr, if_true]
+    exact ⟨_, rfl, hr⟩
+
+/-! ### erasure: checked for transparency ⟶ checked for shared structure (`encPrimsCX`) -/
+
+theorem encStepCT_encStepC_sim (dd : DDesc) (colA colB : ColW)
+    (hc : ∀ a vs o, colA a vs = .ok o → ∃ o', colB a vs = .ok o' ∧ o'.bits = o.bits ∧ o'.upd = o.upd)
+    (s : St) :
+    SimAt (I := Unit) (fun _ _ => True) (fun _ => RelErase) s (encStepCT dd colA s) (encStepC dd colB) := by
+  intro s' hr j _
+  refine ⟨(), trivial, ?_⟩
+  intro t ⟨h1, h2, h3, h4, h5, h6⟩
+  unfold encStepCT at hr
+  unfold encStepC
+  have hcv : colVals t = colVals s := by unfold colVals; rw [h4, h5]
+  rw [hcv]
+  cases hv : colVals s with
+  | error e => rw [hv] at hr; cases hr
+  | ok values =>
+    rw [hv] at hr
+    cases values with
+    | nil => cases hr
+    | cons v0 vs =>
+      dsimp only at hr ⊢
+      cases ho : colA ((v0 :: vs).all (· == v0)) (v0 :: vs) with
+      | error e => rw [ho] at hr; cases hr
+      | ok o =>
+        rw [ho] at hr
+        cases hr
+        obtain ⟨o', ho', hb, hu⟩ := hc _ _ _ ho
+        rw [ho']
+        exact ⟨_, rfl, by simp only [RelErase, h1, h2, h3, h4, h5, h6, hb, hu, and_self]⟩
+
+theorem colT_le (col : ColW) (fld : Fld) (a : Bool) (vs : List Val) (o : ColOut)
+    (h : colT col fld a vs = .ok o) : ∃ o', col a vs = .ok o' ∧ o'.bits = o.bits ∧ o'.upd = o.upd := by
+  obtain ⟨o', fos, hc, _, rfl⟩ := colT_ok h
+  exact ⟨o', hc, rfl, rfl⟩
+
+theorem colT_le_checked (col : ColW) (fldT fld : Fld) (hle : ∀ v fo, fldT v = .ok fo → fld v = .ok fo)
+    (a : Bool) (vs : List Val) (o : ColOut) (h : colT col fldT a vs = .ok o) :
+    ∃ o', colChecked col fld a vs = .ok o' ∧ o'.bits = o.bits ∧ o'.upd = o.upd := by
+  obtain ⟨o', fos, hc, hm, rfl⟩ := colT_ok h
+  refine ⟨o', ?_, rfl, rfl⟩
+  unfold colChecked
+  rw [hc]
+  have hall : (vs.all fun v => (fld v).toBool) = true := by
+    rw [List.all_eq_true]
+    intro v hv
+    obtain ⟨fo, hfo⟩ := ct_rel2_ok (ct_mapM_rel2 _ _ _ hm) v hv
+    rw [hle v fo hfo]; rfl
+  simp only [bind, Except.bind, pure, Except.pure, hall, if_true]
+
+theorem primSim_ct_cx : PrimSim₀ encPrimsCT encPrimsCX RelErase where
+  agree := fun h => ⟨h.1, h.2.2.1, h.2.2.2.2.2⟩
+  rel_setRegs := fun f ⟨h1, h2, h3, h4, h5, h6⟩ => by
+    simp only [RelErase, St.setRegs_regs, St.setRegs_descs, St.setRegs_links, St.setRegs_bits,
+      St.setRegs_vals, St.setRegs_idx, h1, h2, h3, h4, h5, h6, and_self]
+  rel_addLink := fun o ⟨h1, h2, h3, h4, h5, h6⟩ => by
+    simp only [RelErase, addLink_regs, addLink_descs, addLink_links, addLink_bits,
+      addLink_vals, addLink_idx, h1, h2, h3, h4, h5, h6, and_self]
+  ix_setRegs := fun _ => Iff.rfl
+  ix_addLink := fun _ => Iff.rfl
+  numeric := fun dd nb sc rf s =>
+    encStepCT_encStepC_sim dd _ _ (colT_le_checked _ _ _
+      (fun v fo h => fldNumericX_le nb sc rf v fo (fldNumericT_le nb sc rf v fo h))) s
+  string := fun dd n s => encStepCT_encStepC_sim dd _ _ (colT_le _ _) s
+  codeflag := fun dd n s =>
+    encStepCT_encStepC_sim dd _ _ (colT_le_checked _ _ _
+      (fun v fo h => fldCodeflagX_le n v fo (fldCodeflagT_le n v fo h))) s
+  newRefval := fun e n s => encStepCT_encStepC_sim _ _ _ (colT_le _ _) s
+  constant := fun dd c s => encStepCT_encStepC_sim dd _ _ (colT_le _ _) s
+  factor := by
+    intro i s t n ⟨_, _, _, h4, h5, _⟩ h
+    show (encFactorCX t >>= factorCount) = .ok n
+    change (encFactorCT s >>= factorCount) = .ok n at h
+    obtain ⟨v, hv, _, hcount⟩ := ct_encFactorCT_ok h
+    have : encFactorCX t = encFactorCX s := by
+      unfold encFactorCX encFactorC
+      rw [h4, h5]
+    rw [this, hv]
+    exact hcount
+  lastValues := by
+    intro i s t n l ⟨_, _, _, h4, h5, _⟩ h
+    change encLastValuesCT n s = .ok l at h
+    show ∃ l', encLastValuesCX n t = .ok l' ∧ zeroMask l' = zeroMask l
+    obtain ⟨hcx, _⟩ := ct_encLastValuesCT_ok h
+    have : encLastValuesCX n t = encLastValuesCX n s := by
+      unfold encLastValuesCX encLastValues curVals
+      rw [h4, h5]
+    rw [this]
+    exact ⟨l, hcx, rfl⟩
+
 end Bufr
